@@ -185,12 +185,13 @@ structure WF (p : Parts) : Prop where
   exp_digits : ∀ en eds, p.exp = some (en, eds) → IsDigits eds ∧ eds ≠ []
 
 /-- **what `de.rs` hands over denotes the literal exactly.** -/
-def Presents (p : Parts) : Call → Prop
+def Presents (single : Bool) (p : Parts) : Call → Prop
   | .number r =>
     p.frac = none ∧ p.exp = none ∧ litN p ≤ u64Max ∧
     r = (if !p.neg then .u64 (litN p)
          else if 0 < litN p ∧ litN p ≤ 2 ^ 63 then .i64 (-(litN p : Int))
-         else .f64 (Spec.Ieee.F64.neg (Spec.Ieee.F64.ofU64 (litN p))))
+         else .f64 (if single then Spec.Ieee.F32.toF64 (Spec.Ieee.F32.neg (Spec.Ieee.F32.ofU64 (litN p)))
+                   else Spec.Ieee.F64.neg (Spec.Ieee.F64.ofU64 (litN p))))
   | .expOverflow zeroSig positiveExp =>
     ∃ en eds, p.exp = some (en, eds) ∧ expOverflows eds = true ∧ zeroSig = (litN p == 0) ∧ positiveExp = !en
   | .concise sig e => sig = litN p ∧ sig ≤ u64Max ∧ e = satI32 (litE p) ∧ ExpFits p
@@ -235,12 +236,12 @@ theorem satI32_id (x : Int) (h1 : -2147483648 ≤ x) (h2 : x ≤ 2147483647) : s
 
 /-- the common tail of the long path: `parse_long_exponent` / `f64_long_from_parts` on a scratch buffer that
     holds the literal's digits, split so that the fraction has as many digits as the literal's -/
-theorem long_presents (p : Parts) (wf : WF p) (scratch : Bytes) (ie : Nat)
+theorem long_presents (single : Bool) (p : Parts) (wf : WF p) (scratch : Bytes) (ie : Nat)
     (hN : natOfDigits scratch = litN p) (hie : ie ≤ scratch.length)
     (hF : scratch.length - ie = (p.frac.getD []).length) (hd : IsDigits scratch) (hbig : u64Max < litN p)
     (hhead : ∀ d r, scratch.take ie = d :: r → d ≠ 0x30)
     (hsl : scratch.length ≤ (p.int ++ p.frac.getD []).length + 20) :
-    Presents p (match p.exp with
+    Presents single p (match p.exp with
       | some (en, eds) => parseLongExponent scratch ie en eds
       | none => f64LongFromParts scratch ie 0) := by
   have hsplit : natOfDigits (scratch.take ie ++ scratch.drop ie) = litN p := by rw [List.take_append_drop]; exact hN
@@ -277,8 +278,8 @@ theorem long_presents (p : Parts) (wf : WF p) (scratch : Bytes) (ie : Nat)
       · cases en <;> simp <;> omega
 
 /-- the tail of the short path: `parse_exponent` / `f64_from_parts` once every digit is in `sig` -/
-theorem short_presents (p : Parts) (wf : WF p) (sig : Nat) (hN : sig = litN p) (hs : sig ≤ u64Max) :
-    Presents p (match p.exp with
+theorem short_presents (single : Bool) (p : Parts) (wf : WF p) (sig : Nat) (hN : sig = litN p) (hs : sig ≤ u64Max) :
+    Presents single p (match p.exp with
       | some (en, eds) => Model.Lexical.parseExponent sig (-((p.frac.getD []).length : Int)) en eds
       | none => .concise sig (-((p.frac.getD []).length : Int))) := by
   have hfs := wf.frac_small
@@ -301,16 +302,16 @@ theorem short_presents (p : Parts) (wf : WF p) (sig : Nat) (hN : sig = litN p) (
       simp only [litE, litExp, hexp]
       cases en <;> simp <;> congr 1 <;> omega
 
-theorem parseDecimalGo_presents (p : Parts) (wf : WF p) (fds : Bytes) (hfr : p.frac = some fds)
+theorem parseDecimalGo_presents (single : Bool) (p : Parts) (wf : WF p) (fds : Bytes) (hfr : p.frac = some fds)
     (consumed ds : Bytes) (hsplit : fds = consumed ++ ds) (sig : Nat)
     (hsig : sig = natOfDigits (p.int ++ consumed)) (hs : sig ≤ u64Max) :
-    Presents p (parseDecimalGo p.exp sig (-(consumed.length : Int)) ds) := by
+    Presents single p (parseDecimalGo p.exp sig (-(consumed.length : Int)) ds) := by
   have hfd : IsDigits fds := by have := wf.frac_digits; rwa [hfr] at this
   induction ds generalizing consumed sig with
   | nil =>
     rw [List.append_nil] at hsplit
     have hN : sig = litN p := by rw [hsig, litN, hfr, hsplit]; rfl
-    have := short_presents p wf sig hN hs
+    have := short_presents single p wf sig hN hs
     rw [hfr] at this
     simp only [Option.getD_some, hsplit] at this
     simp only [parseDecimalGo]
@@ -344,11 +345,11 @@ theorem parseDecimalGo_presents (p : Parts) (wf : WF p) (fds : Bytes) (hfr : p.f
       have key : ∀ zeros : Bytes, IsDigits zeros → natOfDigits zeros = 0 → zeros.length ≤ consumed.length →
           consumed.length ≤ (zeros ++ itoa sig).length →
           (∀ d r, (zeros ++ itoa sig).take ((zeros ++ itoa sig).length - consumed.length) = d :: r → d ≠ 0x30) →
-          Presents p (match p.exp with
+          Presents single p (match p.exp with
             | some (en, eds) => parseLongExponent (zeros ++ itoa sig ++ c :: cs) ((zeros ++ itoa sig).length - consumed.length) en eds
             | none => f64LongFromParts (zeros ++ itoa sig ++ c :: cs) ((zeros ++ itoa sig).length - consumed.length) 0) := by
         intro zeros hzd hzv hzl hge hhead
-        refine long_presents p wf ((zeros ++ itoa sig) ++ c :: cs) ((zeros ++ itoa sig).length - consumed.length)
+        refine long_presents single p wf ((zeros ++ itoa sig) ++ c :: cs) ((zeros ++ itoa sig).length - consumed.length)
           (by rw [natOfDigits_append, natOfDigits_append, hzv, i1, hlitN]; simp)
           (by simp only [List.length_append]; omega)
           (by rw [hfr, Option.getD_some, hsplit]; simp only [List.length_append, List.length_cons] at hge ⊢; omega)
@@ -403,7 +404,7 @@ theorem parseDecimalGo_presents (p : Parts) (wf : WF p) (fds : Bytes) (hfr : p.f
 
 /-- **c07_split.** For every well-formed literal, the leaf `de.rs` reaches and the arguments it passes denote
     the literal exactly. -/
-theorem deCall_presents (p : Parts) (wf : WF p) : Presents p (deCall p) := by
+theorem deCall_presents (single : Bool) (p : Parts) (wf : WF p) : Presents single p (deCall single p) := by
   unfold deCall
   rcases goInt_spec 0 p.int wf.int_digits (by simp [u64Max]) with ⟨h1, h2⟩ | ⟨pre, c, post, hint, h1, h2, h3⟩
   · -- every integer digit fits
@@ -413,14 +414,14 @@ theorem deCall_presents (p : Parts) (wf : WF p) : Presents p (deCall p) := by
     cases hfr : p.frac with
     | some fds =>
       simp only [Model.Lexical.parseDecimal]
-      have := parseDecimalGo_presents p wf fds hfr [] fds rfl (natOfDigits p.int) (by simp) h2
+      have := parseDecimalGo_presents single p wf fds hfr [] fds rfl (natOfDigits p.int) (by simp) h2
       simpa using this
     | none =>
       have hN : natOfDigits p.int = litN p := by simp [litN, hfr]
       cases hexp : p.exp with
       | some e =>
         obtain ⟨en, eds⟩ := e
-        have := short_presents p wf (natOfDigits p.int) hN h2
+        have := short_presents single p wf (natOfDigits p.int) hN h2
         simpa [hexp, hfr] using this
       | none =>
         have h64 := h2
@@ -433,7 +434,8 @@ theorem deCall_presents (p : Parts) (wf : WF p) : Presents p (deCall p) := by
           refine ⟨hfr, hexp, hN ▸ h2, ?_⟩
           rw [hneg, ← hN]
           simp only [Bool.not_true, Bool.false_eq_true, if_false]
-          have := negClass (NRes.f64 (Spec.Ieee.F64.neg (Spec.Ieee.F64.ofU64 (natOfDigits p.int)))) NRes.i64
+          have := negClass (NRes.f64 (if single = true then Spec.Ieee.F32.toF64 (Spec.Ieee.F32.neg (Spec.Ieee.F32.ofU64 (natOfDigits p.int)))
+              else Spec.Ieee.F64.neg (Spec.Ieee.F64.ofU64 (natOfDigits p.int)))) NRes.i64
             (natOfDigits p.int) (by omega)
           dsimp only at this
           rw [this]
@@ -466,7 +468,7 @@ theorem deCall_presents (p : Parts) (wf : WF p) : Presents p (deCall p) := by
     | some fds =>
       have hfd : IsDigits fds := by have := wf.frac_digits; rwa [hfr] at this
       simp only [parseLongDecimal]
-      have := long_presents p wf ((itoa (natOfDigits pre) ++ c :: post) ++ fds) (itoa (natOfDigits pre) ++ c :: post).length
+      have := long_presents single p wf ((itoa (natOfDigits pre) ++ c :: post) ++ fds) (itoa (natOfDigits pre) ++ c :: post).length
         (by rw [litN, hfr, Option.getD_some, natOfDigits_append, natOfDigits_append p.int, hintv])
         (by simp)
         (by rw [hfr]; simp; omega)
@@ -480,7 +482,7 @@ theorem deCall_presents (p : Parts) (wf : WF p) : Presents p (deCall p) := by
       | none => simpa [hexp] using this
       | some e => obtain ⟨en, eds⟩ := e; simpa [hexp] using this
     | none =>
-      have := long_presents p wf (itoa (natOfDigits pre) ++ c :: post) (itoa (natOfDigits pre) ++ c :: post).length
+      have := long_presents single p wf (itoa (natOfDigits pre) ++ c :: post) (itoa (natOfDigits pre) ++ c :: post).length
         (by rw [litN, hfr]; simp [hintv])
         (Nat.le_refl _)
         (by rw [hfr]; simp)
